@@ -104,6 +104,16 @@ ASSUMPTIONS = [
     "points outside the anchored modules (e.g. dclab/lme4) are listed in the "
     "evidence notes of the thorough tier, not judged.",
     "Scaling before filtering is not reported (element-wise, same result).",
+    "R12.10: parameters are taken to be ndarrays (asarray / ravel / reshape "
+    "/ basic slices of them share the buffer); callees outside the module "
+    "(numpy / scipy value-returning functions, decorated estimators) are "
+    "taken to return fresh arrays and not to write into their arguments; "
+    "procedures without a return value (populate_grid) are judged at their "
+    "call sites only; writes through containers or unclassifiable "
+    "subscripts are an analysis error, not a finding.",
+    "R12.11 decides the pairing on model datasets (two no-feature and two "
+    "feature statistics, present / missing features), not the wording of "
+    "the labels.",
 ]
 
 CORE = "dclab/rtdc_dataset/core.py"
